@@ -146,7 +146,7 @@ def r2(ctx):
     for bi, t in cu.calls():
         if short(t.callee() or "") == KT + "insert_or_update":
             k, v = fmt_short(p.operand(t.args[1])), fmt_short(p.operand(t.args[2]))
-            rule.check(k == "From>::from(node_id)" and v.startswith("new_status.0"), "connection_updated stores the session's record under the given id",
+            rule.check(k in ("From>::from(node_id)", "node_id") and v.startswith("new_status.0"), "connection_updated stores the session's record under the given id",
                        "connection_updated|args", "connection_updated inserts (%s, %s)" % (k, v), loc=cu.loc(t.line))
     p2 = Prov(ise, facts)
     for bi, t in ise.calls():
@@ -196,7 +196,7 @@ def r3_r5(ctx):
         if short(t.callee() or "") != KT + "update_node":
             continue
         k, v = prov.operand(t.args[1]), prov.operand(t.args[2])
-        r5.check(fmt_short(k) == "From>::from(Enr::node_id(enr))" and roots(v) == {("param", 2, "enr")}, "update_node(key of the record's own id, the record)",
+        r5.check(fmt_short(k) in ("From>::from(Enr::node_id(enr))", "Enr::node_id(enr)") and roots(v) == {("param", 2, "enr")}, "update_node(key of the record's own id, the record)",
                  "update|args", "discovered updates (%s, %s)" % (fmt_short(k), fmt_short(v)), loc=b.loc(t.line))
         newer = []
         for sbi, st, e in g.switches():
